@@ -97,6 +97,8 @@ func checkC12(w *World, r *Report) {
 	r.Trusted = []string{"miekg/dns v1.1.34 does not recover panics in handlers and accepts only messages with exactly one question (DefaultMsgAcceptFunc)", "recover() in a deferred closure stops a panic raised later in the same goroutine"}
 	r.Rule("R12.1", "panic containment at both untrusted entry points", 2)
 	r.Rule("R12.9", "an error answer always decodes to an error (the client's callers type-assert the answer when Query reports none)", 1)
+	r.Rule("R12.10", "no query can leave a lock of the DNS endpoint held: every Lock is released on every path out of the function", 10)
+	ruleLockPairing(w, r, "R12.10", dnsPkgFuncs(w))
 	r.Rule("R12.8", "a query cannot disturb an established session unless it passed the owner check (handlers touch session state only on the err == nil edge of validateAndGetUser)", 4)
 	r.Rule("R12.7", "a recovered panic is reported as an error by the entry point that returns one", 1)
 	r.Rule("R12.2", "command table has no callable nil", 2)
